@@ -682,6 +682,28 @@ func (t *Tokenizer) skipWhitespace() {
 
 // nextToken picks out the next token from the input
 func (t *Tokenizer) nextToken() (models.Token, error) {
+	// Comments are skipped by scanning again in a loop, not by recursion: an
+	// input consisting of millions of comments must not grow the stack.
+	for {
+		tok, err := t.scanToken()
+		if err == errCommentSkipped {
+			continue
+		}
+		return tok, err
+	}
+}
+
+// commentSkipped is the internal signal readPunctuation gives scanToken's
+// caller after it consumed a comment (and the whitespace following it).
+type commentSkipped struct{}
+
+func (commentSkipped) Error() string { return "comment skipped" }
+
+var errCommentSkipped error = commentSkipped{}
+
+// scanToken reads one token, or reports errCommentSkipped when it consumed a
+// comment instead.
+func (t *Tokenizer) scanToken() (models.Token, error) {
 	if t.pos.Index >= len(t.input) {
 		return models.Token{Type: models.TokenTypeEOF}, nil
 	}
@@ -1298,9 +1320,9 @@ func (t *Tokenizer) readPunctuation() (models.Token, error) {
 					End:    t.toSQLPosition(t.pos),
 					Inline: t.hasCodeBeforeOnLine(commentStartIdx),
 				})
-				// Return the next token (skip the comment)
+				// Skip the comment: nextToken scans again from here
 				t.skipWhitespace()
-				return t.nextToken()
+				return models.Token{}, errCommentSkipped
 			}
 		}
 		return models.Token{Type: models.TokenTypeMinus, Value: "-"}, nil
@@ -1339,9 +1361,9 @@ func (t *Tokenizer) readPunctuation() (models.Token, error) {
 					End:    t.toSQLPosition(t.pos),
 					Inline: t.hasCodeBeforeOnLine(commentStartIdx),
 				})
-				// Return the next token (skip the comment)
+				// Skip the comment: nextToken scans again from here
 				t.skipWhitespace()
-				return t.nextToken()
+				return models.Token{}, errCommentSkipped
 			}
 		}
 		return models.Token{Type: models.TokenTypeDiv, Value: "/"}, nil
